@@ -121,6 +121,9 @@ def gen_playback_test(top, profile, h, log_path):
         fh.write("\n$ " + " ".join(cmd) + "\n" + p.stdout[-20000:])
     tests = re.findall(r"```\n(.*?)```", p.stdout, re.S)
     tests = [t for t in tests if "concrete_playback_run" in t and "Check for `cover`" not in t]
+    # Kani's doc comment quotes the failed check; a multi-line assertion text leaves its continuation
+    # lines uncommented.  Keep the test item only.
+    tests = [t[t.index("#[test]"):] if "#[test]" in t else t for t in tests]
     return tests
 
 
